@@ -8,7 +8,7 @@
      the ECH-rejected exit                 handshake_client_tls13.go:170-173
      the "some name must be configured" check handshake_client.go:49-51, u_handshake_client.go:404-406.
    Definitions only.  crypto/x509 is not modelled: Certificate.Verify, VerifyHostname, NotAfter and the
-   pre-checks on the raw chain are Section variables (they become explicit parameters when the section closes). *)
+   pre-checks on the raw chain are Section variables; the name that went into SNI is a free input (they become explicit parameters when the section closes). *)
 From UV Require Import Base.Common.
 Open Scope Z_scope.
 
@@ -32,7 +32,6 @@ Section Verify.
   Variable not_after : cert -> Z.                    (* cert.NotAfter, seconds *)
   Variable chain_parses : list cert -> bool.         (* every DER parses and RSA keys are <= 8192 bits (1125-1140) *)
   Variable leaf_key_supported : cert -> bool.        (* RSA / ECDSA / Ed25519 public key (1220-1226) *)
-  Variable hostname_in_sni : name -> name.           (* hostnameInSNI, handshake_client.go:1345 *)
 
   (* the Config fields the decisions read *)
   Record config := mkConfig {
@@ -60,14 +59,17 @@ Section Verify.
      with an ECH config the outer hello's name is overwritten with the public name (handshake_client.go:310,
      u_handshake_client.go:474, for parrots SNIExtension: u_parrots.go:2854 + u_tls_extensions.go:205);
      c.serverName = hello.serverName (handshake_client.go:327 / u_handshake_client.go:491). *)
-  Definition conn_after_hello (cfg : config) (public_name : name) : conn :=
-    mkConn (if ech_config_list cfg then public_name else hostname_in_sni (ServerName cfg)) false.
+  (* [sni] is whatever the hello building left in hello.serverName without ECH: hostnameInSNI(ServerName) — EMPTY for an
+     IP literal, stripped of trailing dots — or what a parrot's SNIExtension / its absence left there. It is an
+     independent input: nothing below may assume that it equals Config.ServerName. *)
+  Definition conn_after_hello (sni : name) (cfg : config) (public_name : name) : conn :=
+    mkConn (if ech_config_list cfg then public_name else sni) false.
   (* server hello / HRR carries the ECH acceptance signal: handshake_client_tls13.go:112-116, 291-296 *)
   Definition conn_ech_accepted (cfg : config) (c : conn) : conn :=
     mkConn (ServerName cfg) true.
   (* the connection state when verifyServerCertificate runs; [accepted] only meaningful with an ECH config *)
-  Definition conn_at_verify (cfg : config) (public_name : name) (accepted : bool) : conn :=
-    let c := conn_after_hello cfg public_name in
+  Definition conn_at_verify (sni : name) (cfg : config) (public_name : name) (accepted : bool) : conn :=
+    let c := conn_after_hello sni cfg public_name in
     if ech_config_list cfg && accepted then conn_ech_accepted cfg c else c.
 
   (* ---- verifyServerCertificate ---- *)
@@ -212,7 +214,15 @@ Record troot := TRoot { r_id : N; r_nb : Z; r_na : Z }.
 Definition tpool := list troot.
 
 Definition within (t nb na : Z) : bool := (nb <=? t) && (t <=? na).      (* !now.Before(NotBefore) && !now.After(NotAfter) *)
-Definition toy_verify_hostname (c : tcert) (n : name) : bool := existsb (bytes_eqb n) (t_names c).
+(* Certificate.VerifyHostname: a bracketed host is an IP literal without the brackets; a trailing dot of a DNS name is
+   ignored; then exact match against the SANs (the runner uses no wildcards and writes IP SANs in canonical text) *)
+Fixpoint strip_dots (r : name) : name := match r with 46%N :: r' => strip_dots r' | _ => r end.
+Definition norm_host (n : name) : name :=
+  match n with
+  | 91%N :: r => match rev r with 93%N :: m => rev m | _ => n end
+  | _ => rev (strip_dots (rev n))
+  end.
+Definition toy_verify_hostname (c : tcert) (n : name) : bool := existsb (bytes_eqb (norm_host n)) (t_names c).
 (* the issuer [id] is a root valid at t, or one of the presented intermediates (certs[1:]) valid at t whose own
    issuer is trusted in the same sense; fuel bounds the path length *)
 Fixpoint toy_trusted (fuel : nat) (roots : tpool) (t : Z) (inter : list tcert) (id : N) : bool :=
@@ -234,9 +244,8 @@ Definition toy_x509_verify (roots : tpool) (t : Z) (n : name) (chain : list tcer
   end.
 Definition toy_parses (chain : list tcert) : bool := true.
 Definition toy_key_ok (c : tcert) : bool := true.
-Definition toy_sni (n : name) : name := n.      (* the runner's names are plain host names: hostnameInSNI is the identity on them *)
 
 Definition t_verify := verify_server_certificate tcert tpool toy_x509_verify t_na toy_parses toy_key_ok.
 Definition t_result := client_result tcert tpool toy_x509_verify t_na toy_parses toy_key_ok.
 Definition t_load_session := load_session_cert_checks tcert tpool toy_verify_hostname t_na.
-Definition t_conn := @conn_at_verify tpool toy_sni.
+Definition t_conn := @conn_at_verify tpool.
